@@ -761,10 +761,6 @@ func (x *Exec) appendOp(st *State, args []Val, c *ssa.CallCommon, ins ssa.Instru
 	st.assume(fmt.Sprintf("(forall ((i Int)) (! (=> (and (<= 0 i) (< i %s)) (= (select %s (+ %s %s i)) (select %s (+ %s i)))) :pattern ((select %s (+ %s %s i)))))", tLen, content, rOff, sLen, tArr, tOff, content, rOff, sLen))
 	// in place: all other cells of the old backing array are unchanged
 	st.assume(implies(fits, fmt.Sprintf("(forall ((i Int)) (! (=> (or (< i (+ %s %s)) (>= i (+ %s %s))) (= (select %s i) (select %s i))) :pattern ((select %s i))))", sOff, sLen, sOff, n, content, base, content)))
-	// single-element appends: give the solver the ground fact directly
-	if !isStringTy(t.Ty) {
-		st.assume(implies(eq(tLen, "1"), eq(sel(content, "(+ "+rOff+" "+sLen+")"), sel(tArr, tOff))))
-	}
 	x.setHeap(st, hn, hs, ite(fits, sto(h, sArr, content), sto(h, a, content)))
 	nc := x.freshConst(st, "ncap", "Int")
 	st.assume(fmt.Sprintf("(and (>= %s %s) (<= %s 1152921504606846976))", nc, n, nc))
@@ -773,6 +769,14 @@ func (x *Exec) appendOp(st *State, args []Val, c *ssa.CallCommon, ins ssa.Instru
 	// append(nil, empty...) stays nil
 	res := x.freshConst(st, "appr", "Slice")
 	st.assume(eq(res, ite(and(eq(sArr, "0"), eq(tLen, "0")), "slice_nil", r)))
+	// derived facts in trigger-friendly form (they follow from the definition above)
+	at := x.atFn(et)
+	h2 := x.heap(st, hn, hs)
+	st.assume(fmt.Sprintf("(forall ((i Int)) (! (=> (and (<= 0 i) (< i %s)) (= (%s %s %s i) (%s %s %s i))) :pattern ((%s %s %s i))))", sLen, at, h2, res, at, h, s.T, at, h2, res))
+	if !isStringTy(t.Ty) {
+		st.assume(fmt.Sprintf("(forall ((j Int)) (! (=> (and (<= %s j) (< j %s)) (= (%s %s %s j) (%s %s %s (- j %s)))) :pattern ((%s %s %s j))))", sLen, n, at, h2, res, at, h, t.T, sLen, at, h2, res))
+		st.assume(implies(eq(tLen, "1"), eq(app(at, h2, res, sLen), app(at, h, t.T, "0"))))
+	}
 	return Val{T: res, Ty: c.Args[0].Type()}
 }
 
